@@ -318,6 +318,27 @@ let mpm_sx (m : mpm) : sx =
 let matches_sx (f : 'm -> sx) (l : (n * 'm) list) : sx =
   L (List.map (fun (p, m) -> L [n_sx p; f m]) l)
 
+(* populate_scopes of the builder, recomputed by the model on the dumped graph: the states whose
+   recorded scope differs, as a set, from the computed one (states ordered by the unverified rank;
+   a wrong order makes the model return a panic, which is reported) *)
+let scopes_field dom (a : ('k, 'p) automaton) : sx list =
+  let rk = compute_rank a in
+  let ids = List.map (fun s -> s.a_id) a.au_states in
+  let rank id = match List.find_opt (fun (i, _) -> i = id) rk with Some (_, r) -> r | None -> O in
+  let rec nat_to_int n = match n with O -> 0 | S m -> 1 + nat_to_int m in
+  let order = List.stable_sort (fun x y -> compare (nat_to_int (rank x)) (nat_to_int (rank y))) ids in
+  match populate_scopes dom big_fuel a order with
+  | Ok sc -> [A "scopes"; L (List.map n_sx (scope_mismatches dom a sc))]
+  | Panic _ -> [A "scopes"; A "panic"]
+  | OutOfFuel -> [A "scopes"; A "out-of-fuel"]
+
+(* add_pattern's key list for each compiled pattern, recomputed by the model and compared, order
+   included, with what every accepting state of the dump records: the (state, pattern) pairs that differ *)
+let mkeys_field dom (a : ('k, 'p) automaton) (extras : 'k list list) (css : ('k, 'p) constraint0 list list) (pres : bool list) : sx list =
+  let pats = List.mapi (fun i cs ->
+      if List.nth pres i then Some ((match List.nth_opt extras i with Some e -> e | None -> []), cs) else None) css in
+  [A "mkeys"; L (List.map (fun (s, p) -> L [n_sx s; n_sx p]) (match_key_mismatches dom big_fuel a pats))]
+
 let run_fuel = nat_of_int 200000
 
 let cmd_engine (args : sx list) : sx =
@@ -328,6 +349,16 @@ let cmd_engine (args : sx list) : sx =
   | [A "aut-run"; A "mat"; aut; hosts] ->
       let a = sx_automaton sx_mkey (sx_ccons sx_mkey) aut in
       L (List.map (fun h -> res_sx (matches_sx mpm_sx) (run matrix_dom run_fuel a (sx_mhost h))) (match hosts with L l -> l | _ -> failwith "hosts"))
+  | [A "parse"; A "str"; t] ->
+      (match s_parse (sx_list sx_n t) with
+       | Ok p -> L [A "ok"; L (List.map (ccons_sx n_sx) (s_cvec p))]
+       | Panic _ -> L [A "panic"]
+       | OutOfFuel -> L [A "out-of-fuel"])
+  | [A "parse"; A "mat"; t] ->
+      (match m_parse (sx_list sx_n t) with
+       | Ok p -> L [A "ok"; L (List.map (ccons_sx mkey_sx) (m_cvec p))]
+       | Panic _ -> L [A "panic"]
+       | OutOfFuel -> L [A "out-of-fuel"])
   | [A "cvec"; A "str"; p] -> L (List.map (ccons_sx n_sx) (s_cvec (sx_spat p)))
   | [A "cvec"; A "mat"; p] -> L (List.map (ccons_sx mkey_sx) (m_cvec (sx_mpat p)))
   | [A "single"; A "str"; p; h] ->
@@ -370,7 +401,7 @@ let cmd_engine (args : sx list) : sx =
          let (slab_b, unamb_b, vdet_b) = go [12; 64; 400; 3000] (false, false, false) in
          [A "slab"; bool_sx slab_b; A "unamb"; bool_sx unamb_b;
           A "vdet"; bool_sx vdet_b; A "eroot"; bool_sx (empty_keys_at_root a && empty_pattern_keys a cs); A "esc"; bool_sx (empty_scope_closed a)] else []) in
-      L (wf @ snd_ @ cpl @ tgt)
+      L (wf @ snd_ @ cpl @ tgt @ (if want 'p' then scopes_field string_dom a @ mkeys_field string_dom a [] cs pres else []))
   | [A "cert"; A "mat"; A which; aut; pats; present] ->
       let a = sx_automaton sx_mkey (sx_ccons sx_mkey) aut in
       let cs = sx_list (fun p -> m_cvec (sx_mpat p)) pats in
@@ -391,7 +422,7 @@ let cmd_engine (args : sx list) : sx =
            | c :: rest -> let (x, y) as r = try_cap c in if x && y then r else go rest r in
          let (sb, ub) = go [12; 64; 400] (false, false) in
          [A "slab"; bool_sx sb; A "unamb"; bool_sx ub] else [] in
-      L (wf @ snd_ @ cpl @ tgt @ inf)
+      L (wf @ snd_ @ cpl @ tgt @ inf @ (if want 'p' then scopes_field matrix_dom a @ mkeys_field matrix_dom a [] cs pres else []))
   | [A "occ"; A "str"; p; h] ->
       let pat = sx_spat p and host = sx_shost h in
       if pat = [] then L [A "u"]
@@ -512,8 +543,9 @@ let cmd_pg (x : sx) : sx =
       let gh = sx_pghost g and r = sx_n root in
       (match pg_cvec_full gh r with
        | Ok (_, nk) -> L [A "cover"; bool_sx (lines_cover gh r); A "keyed"; bool_sx (nodes_keyed gh nk);
-                          A "sound"; bool_sx (lines_sound gh r); A "distinct"; bool_sx (keys_distinct nk); A "wf"; bool_sx (pg_host_wfb gh)]
-       | _ -> L [A "cover"; A "0"; A "keyed"; A "0"; A "sound"; A "0"; A "distinct"; A "0"; A "wf"; A "0"])
+                          A "sound"; bool_sx (lines_sound gh r); A "distinct"; bool_sx (keys_distinct nk); A "wf"; bool_sx (pg_host_wfb gh);
+                          A "linked"; bool_sx (root_linked gh r)]
+       | _ -> L [A "cover"; A "0"; A "keyed"; A "0"; A "sound"; A "0"; A "distinct"; A "0"; A "wf"; A "0"; A "linked"; A "-"])
   | L [A "pg-hostwf"; g] -> L [A "wf"; bool_sx (pg_host_wfb (sx_pghost g))]
   | L [A "pg-walk"; h; n; p] ->
       L (List.map n_sx (walk_nodes (sx_pghost h) (sx_n n) (sx_port p)))
@@ -551,9 +583,9 @@ let cmd_pg (x : sx) : sx =
       let pres = sx_list sx_bool present in
       let ids = List.filteri (fun i _ -> List.nth pres i) (List.mapi (fun i _ -> n_of_int i) pres) in
       let cs = sx_list (fun cs -> sx_list sx_pgcons cs) css in
-      L [A "wf"; bool_sx (wf_check pg_dom a (compute_rank a) ids && arity_ok pg_dom a);
+      L ([A "wf"; bool_sx (wf_check pg_dom a (compute_rank a) ids && arity_ok pg_dom a);
          A "sound"; bool_sx (lab_ok pg_dom (fun _ -> true) pg_atoms a (compute_lab pg_dom pg_atoms a) cs);
-         A "complete"; bool_sx (cert_complete pg_entails pg_refutes a cs pres)]
+         A "complete"; bool_sx (cert_complete pg_entails pg_refutes a cs pres)] @ scopes_field pg_dom a @ mkeys_field pg_dom a [] cs pres)
   | _ -> failwith "pg args"
 
 (* ---- table domain automata: traversal on the dump, certificates ---- *)
@@ -569,15 +601,15 @@ let cmd_tab (x : sx) : sx =
       let d = table_dom h.t_req in
       let a = sx_automaton sx_n sx_tcons aut in
       res_sx (fun ms -> sorted_sx (List.map (fun (p, m) -> L [n_sx p; tmap_sx m]) ms)) (run d pg_fuel a h)
-  | L [A "tab-cert"; host; aut; present; css] ->
+  | L [A "tab-cert"; host; aut; present; css; extras] ->
       let h = sx_thost host in
       let d = table_dom h.t_req in
       let a = sx_automaton sx_n sx_tcons aut in
       let pres = sx_list sx_bool present in
       let ids = List.filteri (fun i _ -> List.nth pres i) (List.mapi (fun i _ -> n_of_int i) pres) in
       let cs = sx_list (fun cs -> sx_list sx_tcons cs) css in
-      L [A "wf"; bool_sx (wf_check d a (compute_rank a) ids && arity_ok d a);
-         A "sound"; bool_sx (lab_ok d (fun _ -> true) t_atoms a (compute_lab d t_atoms a) cs)]
+      L ([A "wf"; bool_sx (wf_check d a (compute_rank a) ids && arity_ok d a);
+         A "sound"; bool_sx (lab_ok d (fun _ -> true) t_atoms a (compute_lab d t_atoms a) cs)] @ scopes_field d a @ mkeys_field d a (sx_list (fun e -> sx_list sx_n e) extras) cs pres)
   | _ -> failwith "tab args"
 
 let dispatch (x : sx) : sx =
@@ -593,7 +625,7 @@ let dispatch (x : sx) : sx =
   | L (A "c15v" :: args) -> cmd_c15v args
   | L (A "glue" :: args) -> cmd_glue args
   | L (A ("tree" | "powerset" | "conditioned" | "with-children" | "pairwise" | "transitive") :: _) -> cmd_c10 x
-  | L ((A ("aut-run" | "cvec" | "single" | "naive" | "cert" | "occ")) :: _ as args) -> cmd_engine args
+  | L ((A ("aut-run" | "parse" | "cvec" | "single" | "naive" | "cert" | "occ")) :: _ as args) -> cmd_engine args
   | L (A ("tab-run" | "tab-cert") :: _) -> cmd_tab x
   | L (A ("pg-opts" | "pg-walk" | "pg-single" | "pg-naive" | "pg-run" | "pg-cert" | "pg-cvec" | "pg-cover" | "pg-good" | "pg-ownkeys" | "pg-srset" | "pg-hostwf") :: _) -> cmd_pg x
   | _ -> failwith "unknown command"
